@@ -197,3 +197,56 @@ def c07(ctx):
     finish(ctx, "14 (variant, context) pairs differing in one bit / length / trailing zero / 254 vs 255 / variant: sign under each, verify under every pair (single default, ZIP-215, batch member), "
            "expected verdict computed by TLC from the verifier-side hash; option/length matrix (style x hash selector x context length {0,1,2,254,255,256,257,1000} x message length {0,63,64,65}) "
            "on Sign / VerifyWithOptions / VerifyBatch: refusal surface and the variant actually used (which stdlib-made candidate signature matches / is accepted)", SIGN_ASSUME)
+
+
+# ---------------------------------------------------------------- API contract / key objects
+
+def api_class(ev):
+    op = ev.get("op")
+    if op == "api":
+        return "api|%s|seed=%s priv=%s pub=%s sig=%s sc=%s pt=%s|%s/%s/ctx%s/msg%s|%s" % (
+            ev["fn"], ev["seedLen"], ev["privLen"], ev["pubLen"], ev["sigLen"], ev["scalarLen"], ev["pointLen"],
+            ev["style"], ev["hash"], ev["ctxlen"], ev["msglen"], ev["alias"]) if ev["fn"] != "VerifyBatch" else \
+            "api|VerifyBatch|n=%s|ctx=%s|mismatch=%s|entropyFail=%s" % (ev["n"], ev["ctxlen"], ev["countMismatch"], ev["entropyFail"])
+    if op == "genkey":
+        return "genkey|avail=%s|chunk=%s|failing=%s" % (ev["avail"], ev["chunk"], ev["failing"])
+    if op == "equal":
+        return "equal|" + ev["what"]
+    return op
+
+
+def api_family(ctx):
+    cases = gen_cases(ctx, "ApiCases", "api_cases.ndjson")
+    drv = build_driver(ctx)
+    trace = os.path.join(ctx.work, "api.ndjson")
+    out = run_driver(ctx, drv, "api", trace, cases=cases)
+    ctx.log("driver:", out.strip())
+    mism = validate_trace(ctx, "TraceApi.tla", "TraceApi.cfg", trace, classify=api_class)
+    report_mismatches(ctx, mism)
+
+
+@check("C13")
+def c13(ctx):
+    model_check(ctx, "MCOptions.tla", "MCOptions.cfg")
+    api_family(ctx)
+    # malformed batch entries at every position (shared with C06): hook trace + result through Batch.tla
+    import glob
+    bcases = gen_cases(ctx, "BatchCases", "batch_cases.ndjson")
+    btrace = os.path.join(ctx.work, "batch.ndjson")
+    out = run_driver(ctx, build_driver(ctx), "batch", btrace, cases=bcases, extra=["-shards", "6"])
+    ctx.log("batch driver:", out.strip())
+    mism = validate_trace(ctx, "TraceBatch.tla", "TraceBatch.cfg", btrace, presharded=sorted(glob.glob(btrace + ".*")), classify=batch_class)
+    report_mismatches(ctx, mism)
+    finish(ctx, "argument-shape matrix enumerated by TLC from spec/ApiCases.tla (lengths nil,0,1,31,32,33,63,64,65,96 for seeds, keys, signatures, X25519 arguments; option classes; "
+           "aliasing patterns) replayed under recover with sentinel-filled spare capacity; outcome class (return / documented panic / error) and the frame condition (sha-256 of every "
+           "backing array before = after) validated by TLC against Api.tla; random malformed VerifyBatch shapes (nil entries, unequal counts, long contexts, failing entropy); "
+           "plus the malformed-entry cases of BatchCases through Batch.tla", ASSUME_COMMON)
+
+
+@check("C14")
+def c14(ctx):
+    model_check(ctx, "MCOptions.tla", "MCOptions.cfg")
+    api_family(ctx)
+    finish(ctx, "GenerateKey on readers of every kind (exact, long, chunked, short, failing, nil): bytes consumed, error propagation, coherence with NewKeyFromSeed / crypto/ed25519; "
+           "Public()/Seed() freshness by mutation; Equal truth table over every single-byte difference (two masks) of private and public keys, length differences and foreign types; "
+           "validated by TLC against Api.tla (GenKeyExpected, EqualExpected)", ASSUME_COMMON)
